@@ -165,6 +165,25 @@ def _entry_calls(slot, bad, tags, fields, variant):
 
     yield "attribute-assignment+insert" + v, assign
 
+    def assign_rejected_then_insert(db):
+        # the assignment is refused (as it should be), the caller carries on with the point it had: what gets stored?
+        p = Point(time=from_us(BASE_US), tags={"k": "a"}, fields={"x": 1})
+        try:
+            if slot == "time":
+                p.time = bad
+            elif slot == "measurement":
+                p.measurement = bad
+            elif tags is not None:
+                p.tags = tags
+            else:
+                p.fields = fields
+        except (ValueError, TypeError):
+            pass
+        db.insert(p)
+        raise ValueError("(harness) the assignment was the call under test; the insert may succeed")
+
+    yield "attribute-assignment-refused-then-insert" + v, assign_rejected_then_insert
+
     if slot == "measurement":
         yield "insert(measurement=)", lambda db: db.insert(Point(time=from_us(BASE_US)), measurement=bad)
         yield "insert_multiple(measurement=)", lambda db: db.insert_multiple([Point(time=from_us(BASE_US))], measurement=bad)
